@@ -44,24 +44,25 @@ LEVELS = [240, 120, 40, 0]      # ms; a lint task on one of the generated files 
 
 
 @st.composite
-def cases(draw, thorough, shard=0):
+def cases(draw, thorough, rot=0):
     """
-    Everything is drawn as an offset into a rotation that starts at the shard number: the simplest example of Hypothesis
-    (which every shard evaluates first, and a quick shard evaluates only ~3 file sets) is then a mixed file set with a
-    submission-order-inverting plan, and a different one in every shard.
+    Everything is drawn as an offset into a rotation that starts at ``rot`` (a function of shard number and seed): the
+    simplest example of Hypothesis (which every shard evaluates first, and a quick shard evaluates only ~3 file sets) is
+    then a mixed file set with submission-order-inverting plans, and a different one in every shard and for every seed.
     """
     span = 36 if thorough else 8
-    n = 5 + (shard + draw(st.integers(0, span - 1))) % span
-    files = [draw(lintgen.lint_file(i, rot=shard)) for i in range(n)]
+    n = 5 + (rot + draw(st.integers(0, span - 1))) % span
+    files = [draw(lintgen.lint_file(i, rot=rot)) for i in range(n)]
     ns = 4 if thorough else 3
     schedules = []
     for k in range(ns):
-        # the delay of a file follows its rank in a generated permutation (identity: first file = slowest)
+        # the delay of a file follows its rank in a generated permutation (identity: schedule 0 makes the first file the
+        # slowest and the last one the fastest; the later schedules start the ranking a third of the way further on)
         perm = draw(st.permutations(list(range(n))))
-        schedules.append({'workers': WORKERS[(shard + k + draw(st.integers(0, len(WORKERS) - 1))) % len(WORKERS)],
-                          'delays': [LEVELS[perm[i] * len(LEVELS) // n] for i in range(n)]})
-    return {'files': files, 'overlap': (shard + draw(st.integers(0, 3))) % 4 == 0,
-            'line_hashes': (shard + draw(st.integers(0, 2))) % 3 != 0, 'schedules': schedules}
+        schedules.append({'workers': WORKERS[(rot + k + draw(st.integers(0, len(WORKERS) - 1))) % len(WORKERS)],
+                          'delays': [LEVELS[(perm[i] + k * (n // 3)) % n * len(LEVELS) // n] for i in range(n)]})
+    return {'files': files, 'overlap': (rot + draw(st.integers(0, 3))) % 4 == 0,
+            'line_hashes': (rot + draw(st.integers(0, 2))) % 3 != 0, 'schedules': schedules}
 
 
 # --------------------------------------------------------------------------
@@ -252,7 +253,28 @@ def _scratch_root():
     return root
 
 
+_WARM = []
+
+
+def _warm():
+    """
+    Once per process, before the first fork: build the (process-wide, stateless) fparser parser tables and import the
+    rule modules, so that the lint processes and their workers inherit them instead of spending ~1 CPU-second each on
+    it; and move everything allocated so far out of the reach of the cyclic GC so that the forked processes do not
+    copy those pages. Neither changes what a lint run computes.
+    """
+    if _WARM:
+        return
+    _WARM.append(1)
+    from loki import Sourcefile
+    _rules()
+    Sourcefile.from_source('subroutine c42_warm(a)\n  integer, intent(inout) :: a\n  if (a > 0) a = a + 1\nend subroutine c42_warm\n')
+    gc.collect()
+    gc.freeze()
+
+
 def check_case(case, ctx):
+    _warm()
     root = _scratch_root()
     _check(case, ctx, root, os.path.join(root, 'src'))
 
@@ -372,8 +394,8 @@ def _check(case, ctx, root, src):
                 continue      # content lost; reported as incomplete report file
             a, b = per_file(ref[obs]), per_file(res[obs])
             for n in sorted(set(a) | set(b)):
-                if n in twice:
-                    continue      # reported separately
+                if n in twice or (obs != 'yaml' and (n not in a or n not in b)):
+                    continue      # reported separately (more than once / not at all)
                 if a.get(n, Counter()) != b.get(n, Counter()):
                     kind = 'unparsable-file' if n in broken else 'violations'
                     da = sorted((a.get(n, Counter()) - b.get(n, Counter())).items(), key=repr)[:2]
@@ -400,7 +422,7 @@ def run_shard(ctx):
     # a Hypothesis shrink pass re-runs the whole search; with seconds per evaluation it is only affordable in the
     # thorough tier (the stored failing case is already cut down to the one failing schedule)
     shrink = ctx.thorough and not os.environ.get('LOKIVERIF_NOSHRINK')
-    ctx.given(cases(ctx.thorough, ctx.shard), check_case, n, label='filesets', shrink=shrink)
+    ctx.given(cases(ctx.thorough, ctx.shard + 7 * ctx.base_seed), check_case, n, label='filesets', shrink=shrink)
     ctx.note('OS-level interleavings are not enumerated; the harness owns the duration of each lint task only; '
              'files that fail to parse cannot be delayed (the DelayRule never runs on them)')
     ctx.note('class observed:reports-arrived-out-of-submission-order is a timing-dependent observation, not part of the verdict')
